@@ -67,6 +67,8 @@ pub mod api_validation;
 
 // ANN backend abstraction (internal)
 pub(crate) mod ann_backend;
+#[cfg(kyrodb_verif)]
+pub mod verif_hooks;
 
 // SIMD-accelerated vector math (runtime-dispatched, safe fallback)
 pub(crate) mod simd;
